@@ -23,7 +23,7 @@ RULE = ("notes = names (7 letters x every '#'/'b' string up to length 4 in all o
         "and with an octave suffix. Non-trivial: name with an accidental (incl. spellings that cross the octave "
         "boundary, Cb / B#), pair of different letters, detune != 0, bound value outside the range, malformed string "
         "sharing a valid prefix."
-        " Also: the same Note object reused across Hz conversions with different standard pitches; velocity / channel bounds together with the 'Name-octave' text form; a coverage-guided atheris campaign over name-like text; comparisons between notes that differ in velocity and channel (half of them of equal pitch); the frequency of every spelling against the pitch-number formula at three standard pitches; direct assignment to .name / .octave after the number has been read; one frequency read under four standard pitches in a row; one Note object reading a walk of detuned neighbouring pitches.")
+        " Also: the same Note object reused across Hz conversions with different standard pitches; velocity / channel bounds together with the 'Name-octave' text form; a coverage-guided atheris campaign over name-like text; comparisons between notes that differ in velocity and channel (half of them of equal pitch); the frequency of every spelling against the pitch-number formula at three standard pitches; direct assignment to .name / .octave after the number has been read; one frequency read under four standard pitches in a row; one Note object reading a walk of detuned neighbouring pitches. One attribute given twice in a call (dict and keyword); the integer constructor with legal dynamics keeps its pitch.")
 ASSUMPTIONS = [
     "'printed form' is repr(note), a quoted Python string literal; it is unquoted with ast.literal_eval before being fed back",
     "malformed names are non-empty strings without '-' that do not match [A-G][#b]*, alone or followed by '-<int>' "
